@@ -45,8 +45,8 @@ Scope(b) == [k |-> "scope", v |-> "-", b |-> b, e |-> <<>>]
 ---------------------------------------------------------------------------
 (* interpreter state threaded through the walk *)
 \* rules: the caller's log configuration, a sequence of [tk, src]: trigger kind ("always" | "never" |
-\* "every2" | "scripted": fires on its 1st, 3rd, 4th evaluation) and the state that is extracted
-\* ("K0" | "U" | "IT" | "MISSING").  rootit = 0: the caller put a pass counter into its own state.
+\* "every2" | "scripted": fires on its 1st, 3rd, 4th evaluation | "late": on its 2nd, 4th, 5th) and the state that is extracted
+\* ("K0" | "U" | "IT" | "MISSING" | ...); callers pass Expand(adds).  rootit = 0: the caller put a pass counter into its own state.
 St0x(script, fault, rules, rootit) ==
     [sc |-> <<[RootScope EXCEPT !["IT"] = rootit]>>, out |-> <<>>, script |-> script, fault |-> fault,
      cnt |-> [init |-> 0, require |-> 0, exec |-> 0], st |-> "ok",
@@ -82,16 +82,32 @@ KeyOf(v) == "K0"
 
 (* ---- the Logger component (src/logging/logger.rs), C15 ---------------------------------------- *)
 TrigScript == <<1, 0, 1, 1, 0>>
+LateScript == <<0, 1, 0, 1, 1>>      \* a trigger that stays silent at first: later steps bring names the log has not seen yet
 Fires(s, j) ==            \* outcome of rule j's trigger when evaluated now
     LET r == s.rules[j] IN
     CASE r.tk = "always" -> 1
       [] r.tk = "never" -> 0
       [] r.tk = "every2" -> IF Vis(s.sc, "IT") % 2 = 0 THEN 1 ELSE 0
       [] r.tk = "scripted" -> IF s.tpos[j] < Len(TrigScript) THEN TrigScript[s.tpos[j] + 1] ELSE 0
+      [] r.tk = "late" -> IF s.tpos[j] < Len(LateScript) THEN LateScript[s.tpos[j] + 1] ELSE 0
 \* null if the source state is missing; PG is a float state the ins0 leaves keep next to K0 (0.75 * K0, logged in quarters)
+\* next to K0 the ins0 leaves also keep the states the `with_common` shorthand names: EV = Evaluations (K0 + 10),
+\* PI = Progress<ValueOf<Iterations>> (K0 + 20 quarters), and PE = Progress<ValueOf<Evaluations>> (K0 + 30 quarters)
+Derived(k, src) == CASE src = "PG" -> 3 * k [] src = "EV" -> k + 10 [] src = "PI" -> k + 20 [] src = "PE" -> k + 30
 SrcVal(s, src) == IF src \in {"MISSING", "BV"} THEN NoVal       \* (BV: best objective value, never recorded in these runs)
-                  ELSE IF src = "PG" THEN (IF Vis(s.sc, "K0") = NoVal THEN NoVal ELSE 3 * Vis(s.sc, "K0"))
+                  ELSE IF src \in {"PG", "EV", "PI", "PE"}
+                       THEN (IF Vis(s.sc, "K0") = NoVal THEN NoVal ELSE Derived(Vis(s.sc, "K0"), src))
                   ELSE Vis(s.sc, src)
+\* The caller describes its log configuration by the LogConfig calls it makes ("adds": [tk, via, srcs]); the rules they
+\* stand for: `with(trigger, extractor)` and `with_auto::<T>(trigger)` one rule, `with_many(trigger, extractors)` one
+\* rule per extractor with the same trigger, in order, `with_common(trigger)` the number of evaluations and the progress
+\* of the iterations, in this order.
+RECURSIVE Expand(_)
+Expand(adds) ==
+    IF Len(adds) = 0 THEN <<>>
+    ELSE LET a == Head(adds) IN
+         (IF a.via = "common" THEN <<[tk |-> a.tk, src |-> "EV"], [tk |-> a.tk, src |-> "PI"]>>
+          ELSE [i \in 1..Len(a.srcs) |-> [tk |-> a.tk, src |-> a.srcs[i]]]) \o Expand(Tail(adds))
 RECURSIVE Entries(_, _, _)
 Entries(s, j, acc) ==     \* one entry per fired rule, in rule order; the first rule wins for a repeated name
     IF j > Len(s.rules) THEN acc
@@ -102,7 +118,7 @@ LogExec(s) ==             \* every trigger is evaluated exactly once; a non-empt
     LET es == Entries(s, 1, <<>>)
         hasIt == \E x \in 1..Len(es) : es[x].n = "IT"
         step == IF hasIt THEN es ELSE <<[n |-> "IT", v |-> Vis(s.sc, "IT")]>> \o es
-        s1 == [s EXCEPT !.tpos = [j \in 1..Len(s.rules) |-> IF s.rules[j].tk = "scripted" THEN @[j] + 1 ELSE @[j]],
+        s1 == [s EXCEPT !.tpos = [j \in 1..Len(s.rules) |-> IF s.rules[j].tk \in {"scripted", "late"} THEN @[j] + 1 ELSE @[j]],
                         !.lx = Append(@, [sc |-> s.sc, rules |-> s.rules, fired |-> [j \in 1..Len(s.rules) |-> Fires(s, j)]])]
     IN IF Len(es) = 0 THEN s1 ELSE [s1 EXCEPT !.log = Append(@, step)]
 
